@@ -188,4 +188,3 @@ func sortedContractKeys(m map[string]*Contract) []string {
 	}
 	return ks
 }
-
